@@ -920,15 +920,45 @@ PSD_PARAMS = {
 }
 
 
+# aperture SHAPE x mask VALUE FORM.  "A mask marks a sample invalid where it is 0; every other sample is part of the surface":
+# binary masks in every dtype a caller plausibly holds, 0/255 image masks, two-valued masks with a non-unit level, anti-aliased
+# (one pixel) and apodised (six pixel) soft edges, a fractional ramp, and a strictly positive weight map (no invalid sample)
+SYNTH_MASKS = ('none', 'circle', 'half',
+               'circle:bool', 'circle:int64', 'circle:uint8-255', 'circle:float32', 'circle:0/0.5', 'circle:0/3',
+               'circle:soft1', 'circle:soft6', 'half:bool', 'half:uint8-255', 'half:ramp', 'weights')
+
+
 def synth_mask(kind, n):
     if kind == 'none':
         return None
     i, j = np.indices((n, n))
-    if kind == 'circle':
-        return (((i - n // 2) ** 2 + (j - n // 2) ** 2) <= (n / 2 - 0.5) ** 2).astype(float)
-    m = np.ones((n, n))
-    m[:, :n // 2] = 0     # 'half'
-    return m
+    shape, _, form = kind.partition(':')
+    if shape == 'weights':        # fractional everywhere, never 0: every sample is valid
+        return 0.25 + ((3 * i + 5 * j) % 7) / 8.0
+    if shape == 'circle':
+        rad = np.sqrt((i - n // 2) ** 2 + (j - n // 2) ** 2)
+        Rc = n / 2 - 0.5
+        m = (rad <= Rc).astype(float)
+        if form == 'soft1':       # anti-aliased edge, one pixel wide
+            return np.clip(Rc - 0.5 - rad + 0.5, 0, 1)
+        if form == 'soft6':       # apodised edge, six pixels wide
+            return np.clip((Rc - 1.0 - rad) / 6 + 0.5, 0, 1)
+    else:
+        m = np.ones((n, n))
+        m[:, :n // 2] = 0     # 'half'
+        if form == 'ramp':        # 0 on the left half, 1/7 .. 1 on the right
+            return m * (1 + (3 * i + 5 * j) % 7) / 7.0
+    if form == '':
+        return m
+    if form == 'bool':
+        return m.astype(bool)
+    if form == 'uint8-255':
+        return (m * 255).astype(np.uint8)
+    if form == '0/0.5':
+        return m * 0.5
+    if form == '0/3':
+        return m * 3.0
+    return m.astype(form)         # int64, float32
 
 
 def run_synth(case, seed, R):
@@ -962,7 +992,7 @@ def run_synth(case, seed, R):
     R.expect(np.array_equal(zs[0], zs[1], equal_nan=True), 'render_synthetic_surface:nondeterministic',
              what + ': two runs from the same numpy.random seed differ (a random source the harness does not own)')
     z = zs[0]
-    sigm = 'masked' if mask is not None else 'unmasked'
+    sigm = 'unmasked' if mask is None else ('masked' if len(np.unique(mask)) <= 2 else 'masked:fractional')
     fin = np.isfinite(z)
     if R.expect(np.array_equal(fin, valid), f'render_synthetic_surface:valid-samples:{sigm}',
                 what + f': {int(fin.sum())} finite samples, the mask keeps {int(valid.sum())}'):
@@ -1232,7 +1262,7 @@ def o_events(init, h, state):
     return _O_EVENTS
 
 
-def o_psd_call(itf, op, R, n0, n1):
+def o_psd_call(itf, op, R, n0, n1, dx=None):
     if op == 'psd':
         p = R.call(itf.psd)
         if p is FAILED:
@@ -1245,7 +1275,7 @@ def o_psd_call(itf, op, R, n0, n1):
     if op == 'blrms_full':
         return R.call(itf.bandlimited_rms, flow=0.0, fhigh=None)
     if op == 'blrms_band':
-        _, _, mids = radial_classes(n0, n1, O_DX)
+        _, _, mids = radial_classes(n0, n1, O_DX if dx is None else dx)
         m = len(mids)
         return R.call(itf.bandlimited_rms, wllow=1.0 / float(mids[(2 * m) // 3]), wlhigh=1.0 / float(mids[m // 3]))
     return R.call(itf.total_integrated_scatter, 50.0, 30.0)
@@ -1348,6 +1378,195 @@ def o_canon(state):
 
 
 # ---------------------------------------------------------------------------------------------
+# geometry history: ONE Interferogram whose shape / sampling / cached coordinate grids change between calls
+#
+# The spectrum-type methods are functions of (data, dx) alone.  The object also carries lazily materialised coordinate grids
+# (x, y, r, t), which crop() slices without recentring, recenter() shifts, latcal()/strip_latcal()/pad() rebuild, and which go
+# stale when the public attributes dx / data are reassigned.  Whatever the grids' state, a spectrum-type call must equal the
+# reference computed from the CURRENT data and dx and what a fresh Interferogram(data.copy(), dx) returns.
+
+G_DX = 0.5
+G_DX2 = 0.2
+G_GEOM_OPS = ('get_x', 'get_y', 'get_r', 'get_t', 'remove_piston', 'remove_tiptilt', 'crop', 'recenter', 'fill0',
+              'strip_latcal', 'latcal', 'pad0', 'set_dx', 'set_data', 'copy')
+_G_GEOM = [{'op': o} for o in G_GEOM_OPS]
+_G_SPEC = [{'op': o} for o in O_PSD_OPS]
+
+
+def g_fresh(init, seed):
+    n0, n1 = init['n0'], init['n1']
+    t, b, l, r_ = init['border']
+    i, j = np.indices((n0, n1))
+    h = dense((n0, n1), seed, salt=71, complex_=False) + 2.0 + 0.3 * j - 0.15 * i + np.sin(j / 1.7) * np.cos(i / 1.3)
+    h[:t] = np.nan
+    h[n0 - b:] = np.nan
+    h[:, :l] = np.nan
+    h[:, n1 - r_:] = np.nan
+    return {'itf': Interferogram(h, G_DX), 'seed': int(seed), 'hist': [], 'last': None, 'spec': False, 'dead': False}
+
+
+def g_finite(itf):
+    try:
+        d = np.asarray(itf.data)
+        return d.ndim == 2 and d.dtype.kind == 'f' and min(d.shape) >= 3 and bool(np.isfinite(d).all())
+    except Exception:   # noqa
+        return False
+
+
+def g_events(init, h, state):
+    # a spectrum of a map with invalid samples is outside the property's domain: offered only on finite data
+    if state.get('dead'):
+        return []
+    return _G_GEOM + (_G_SPEC if g_finite(state['itf']) else [])
+
+
+def g_spec_call(itf, op, R):
+    n0, n1 = itf.data.shape
+    return o_psd_call(itf, op, R, n0, n1, float(itf.dx))
+
+
+def g_edit(state, R, f, *a, **k):
+    """An editor / geometry method is not judged by this property: one that refuses the present state only ends the history."""
+    nv = len(R.violations)
+    out = R.call(f, *a, **k)
+    if out is FAILED:
+        del R.violations[nv:]
+        state['dead'] = True
+    return out
+
+
+def g_apply(state, ev, R):
+    op = ev['op']
+    itf = state['itf']
+    out = None
+    if op in O_PSD_OPS:
+        out = g_spec_call(itf, op, R)
+        state['spec'] = True
+    elif op in ('get_x', 'get_y', 'get_r', 'get_t'):
+        g_edit(state, R, getattr, itf, op[4:], hygiene=False)
+    elif op in ('remove_piston', 'remove_tiptilt', 'crop', 'recenter', 'strip_latcal'):
+        g_edit(state, R, getattr(itf, op))
+    elif op == 'fill0':
+        g_edit(state, R, itf.fill, 0)
+    elif op == 'latcal':
+        g_edit(state, R, itf.latcal, G_DX2)
+    elif op == 'pad0':
+        g_edit(state, R, itf.pad, 0.0, samples=(1, 2))
+    elif op == 'set_dx':          # public attribute reassigned
+        itf.dx = G_DX2
+        R.tick()
+    elif op == 'set_data':        # public attribute reassigned: a finite map of another shape
+        n0, n1 = np.asarray(itf.data).shape
+        itf.data = dense((n0 - 1, n1 + 2), state['seed'], salt=73, complex_=False) + 0.5
+        R.tick()
+    elif op == 'copy':
+        c = g_edit(state, R, itf.copy)
+        if c is not FAILED:
+            state['itf'] = c
+    state['hist'].append(ev)
+    state['last'] = out
+    return state
+
+
+def judge_spectrum(R, itf, op, out, dx, pre, what, band_ref=False):
+    """A spectrum-type result of `itf` against the reference of its CURRENT data / dx and against a fresh object."""
+    if out is FAILED:
+        return
+    try:
+        h = np.array(itf.data, dtype=float, copy=True)
+        ok = h.ndim == 2 and bool(np.isfinite(h).all())
+    except Exception:   # noqa
+        ok = False
+    if not R.expect(ok, pre + 'data', what + ': the data are no longer a finite 2-D array'):
+        return
+    n0, n1 = h.shape
+    fresh = o_psd_call(Interferogram(h.copy(), dx), op, R, n0, n1, dx)
+    _, cands = window_choice('auto', h, dx)
+    if op == 'psd':
+        judge_psd(R, out, h, dx, cands, 'auto', what, prefix=pre + 'psd')
+        if fresh is not FAILED:
+            R.expect_equal(out[2], fresh[2], pre + 'psd:vs-fresh-object', what + ': psd().data vs a fresh Interferogram of the current data')
+    else:
+        if op == 'tis':
+            try:
+                a = np.asarray(out, dtype=float)
+                good = a.shape == () and bool(np.isfinite(a))
+            except Exception:   # noqa
+                good = False
+            if not R.expect(good, pre + 'tis:output', what + ': TIS must be one finite number'):
+                return
+            v = float(a)
+            f = None if fresh is FAILED else float(np.asarray(fresh, dtype=float))
+            scale = max(abs(v), 1e-300)
+        else:
+            v = as_ms(R, out, pre + op + ':output', what)
+            f = None if fresh is FAILED else as_ms(R, fresh, pre + op + ':output', what + ' (fresh object)')
+            if v is None:
+                return
+            scale = max(v, 1e-300)
+            if op == 'blrms_full' or band_ref:
+                ring = ring_mask(n0, n1)
+                if op == 'blrms_full':
+                    inb = np.ones((n0, n1), bool)
+                else:
+                    _, cls, mids = radial_classes(n0, n1, dx)
+                    m = len(mids)
+                    inb = (cls > m // 3) & (cls <= (2 * m) // 3)
+                best = None
+                for name, w, wabs in cands:
+                    S2 = float((w ** 2).sum())
+                    cell = ref_psd(h * w, dx) / S2 / (n0 * n1 * dx * dx)
+                    U, E = float(cell[inb].sum()), float((cell * ring)[inb].sum())
+                    dev = abs(v - U) - E - K * EPS * float(((h * wabs) ** 2).sum()) / S2
+                    if best is None or dev < best[0]:
+                        best = (dev, name, U, E)
+                if op == 'blrms_full':
+                    R.expect(best[0] <= 0, pre + 'blrms_full:fullband', f'{what}: rms^2={v!r}, windowed mean square of the current data {best[2]!r} ({best[1]}), ring weight {best[3]!r}')
+                else:
+                    R.expect(best[0] <= 0, pre + 'blrms_band:band-integral', f'{what}: rms^2={v!r}, integral of the PSD of the current data over the band {best[2]!r} ({best[1]}), ring weight {best[3]!r}')
+        if f is not None:
+            R.expect(abs(v - f) <= 8 * EPS * max(scale, abs(f)), pre + op + ':vs-fresh-object', f'{what}: {v!r} vs a fresh Interferogram of the current data {f!r}')
+    R.nontrivial()
+
+
+def g_check(state, init, history, R):
+    if not history or history[-1]['op'] not in O_PSD_OPS:
+        return
+    op = history[-1]['op']
+    itf = state['itf']
+    ops = [e['op'] for e in history]
+    try:
+        dx = float(itf.dx)
+    except Exception:   # noqa
+        R.violation('Interferogram:geometry:dx', f'history {ops}: dx is no longer a number')
+        return
+    grids = [o for o in ops[:-1] if o in G_GEOM_OPS and o not in ('remove_piston', 'fill0', 'copy')]
+    cls = 'after-' + grids[-1] if grids else 'plain'
+    try:
+        judge_spectrum(R, itf, op, state['last'], dx, f'Interferogram:geometry:{cls}:', f'{init["n0"]}x{init["n1"]} NaN border {init["border"]}, history {ops} '
+                       f'(now {np.asarray(itf.data).shape}, dx={dx})', band_ref=True)
+        R.outcome(f'{cls}->{op}')
+    finally:
+        prune(R)
+
+
+def _digest(v):
+    if v is None:
+        return None
+    if isinstance(v, np.ndarray):
+        return (v.shape, str(v.dtype), zlib.crc32(np.ascontiguousarray(v).tobytes()))
+    if isinstance(v, (bool, int, float, str, np.generic)):
+        return repr(v)
+    return type(v).__name__
+
+
+def g_canon(state):
+    """Every attribute of the object (so a cache a changed implementation hangs on it is seen) + 'a spectrum call happened'."""
+    itf = state['itf']
+    return (state['spec'], state['dead']) + tuple((k, _digest(v)) for k, v in sorted(vars(itf).items()))
+
+
+# ---------------------------------------------------------------------------------------------
 
 def plan(tier, seed):
     quick = tier == 'quick'
@@ -1385,8 +1604,10 @@ def plan(tier, seed):
     sizes = (10.0,) if quick else (10.0, 0.7)
     synth_cases = [{'samples': n, 'mask': mk, 'psd': fam, 'params': pi, 'rms': rms, 'size': size}
                    for n in ((8, 9, 16) if quick else (8, 9, 16, 17, 32))
-                   for mk in ('none', 'circle', 'half') for fam in ('abc', 'ab') for pi in (0, 1)
+                   for mk in SYNTH_MASKS for fam in ('abc', 'ab') for pi in (0, 1)
                    for rms in (1.0, 3.7) for size in sizes]
+    g_inits = [{'n0': 12, 'n1': 13, 'border': [1, 3, 2, 0]}, {'n0': 12, 'n1': 12, 'border': [2, 0, 1, 3]}] + ([] if quick else [{'n0': 11, 'n1': 14, 'border': [2, 2, 3, 3]}, {'n0': 30, 'n1': 33, 'border': [0, 3, 2, 1]}])
+    g_depth = 4
     rs = lambda: reset_executors(64)   # noqa
     return [
         ScopeUnit('psd', psd_cases, run_psd,
@@ -1439,8 +1660,17 @@ def plan(tier, seed):
                     f'every history of length <= 3 on ONE Interferogram over {{{", ".join(O_PSD_OPS)}}} (psd, full-band / period-band bandlimited_rms, total_integrated_scatter) and the in-place '
                     f'editors {{{", ".join(O_EDIT_OPS)}}} (scale: data *= 2, assign: data[...] = other): whenever the last call is a spectrum-type call it must satisfy axes / Parseval / '
                     'spectrum-on-axes / full-band integral against the reference computed from the CURRENT data and equal what a fresh Interferogram built from a copy of the current data returns', reset=rs),
+        HistoryUnit('geometry_history', g_inits, g_fresh, g_events, g_apply, g_check, g_canon, g_depth,
+                    f'every history of length <= {g_depth} on ONE Interferogram (dx = {G_DX}) whose raw map has an invalid (NaN) margin {[i_["border"] for i_ in g_inits]} (top, bottom, left, right; '
+                    f'asymmetric and symmetric) on shapes {[(i_["n0"], i_["n1"]) for i_ in g_inits]}, over the events {{{", ".join(G_GEOM_OPS)}}} (get_*: materialise the cached coordinate grid; '
+                    f'latcal({G_DX2}); pad0: pad(0, samples=(1, 2)); set_dx: dx = {G_DX2} reassigned; set_data: data reassigned to a finite map of another shape; copy: continue on copy()) and, '
+                    f'whenever the data are finite, the spectrum-type calls {{{", ".join(O_PSD_OPS)}}}; states are merged on the digest of EVERY attribute of the object (+ whether a spectrum call '
+                    'happened).  A spectrum-type call must satisfy axes / Parseval / spectrum-on-axes / full-band and band integral against the reference computed from the CURRENT data and dx, '
+                    'and equal what a fresh Interferogram(data.copy(), dx) returns -- whatever the state of the cached grids (sliced by crop, shifted by recenter, stale after reassignment)', reset=rs),
         ScopeUnit('synthesis', synth_cases, run_synth,
-                  'samples x mask {none, circle, half} x {abc_psd, ab_psd} x 2 parameter sets x rms {1, 3.7} x size: numpy.random seeded with seed XOR crc32(case) before '
-                  'every call, rendered twice (bit-identical), RMS over the valid samples == requested, NaN exactly outside the mask; Interferogram.render_from_psd '
+                  f'samples x mask {list(SYNTH_MASKS)} (aperture shape {{circle, half plane, none}} x mask VALUE FORM alphabet: float 0/1, bool, int64, float32, uint8 0/255, two-valued '
+                  '0/0.5 and 0/3, one-pixel anti-aliased edge, six-pixel apodised edge, fractional ramp, strictly positive weight map; a sample is valid iff mask != 0) '
+                  'x {abc_psd, ab_psd} x 2 parameter sets x rms {1, 3.7} x size: numpy.random seeded with seed XOR crc32(case) before '
+                  'every call, rendered twice (bit-identical), RMS over the valid samples == requested, NaN exactly where the mask is 0; Interferogram.render_from_psd '
                   'with the same mask and with its default mask', reset=rs),
     ]
